@@ -56,6 +56,11 @@ C05 — kernel-checked witnesses.
 3. Repaired defect (`fix:` 8f0968b in /repo): a GNU empty union.  `union_initializer` dereferenced `init->ty->members` (NULL);
    now `union E {} e = {};` skips excess elements through `struct_initializer1`, an initializer without braces consumes nothing, and
    `create_lvar_init` emits no assignment.
+4. Repaired defect (braced string literal, C11 6.7.9p14-15): "An array of character type may be initialized by a character string
+   literal …, optionally enclosed in braces."  `char s[6] = {"abc"};` used to be parsed as a list whose first initializer - the
+   address of the literal - went into `s[0]`, and `char t[] = {"abcd"}` got one element.  `initializer2` now has the braced-string
+   branch (model: `bracedStr`; specification: `InitSpec.bracedLit`), also for wide literals and `{ "…", }`; a literal of another
+   element width (`int a[] = {"abc"}`) and `_Bool` arrays keep the list meaning.
 -/
 import ChibiVerif.Model.Init
 import ChibiVerif.Spec.InitSpec
@@ -273,5 +278,54 @@ theorem C05_repaired_empty_union :
       = some (true, [n 1]) ∧                                                                    -- no braces: nothing consumed
     (autoObject (.union none none []) tEmptyU).toOption = some [] ∧
     (staticObject (.union none none []) tEmptyU).toOption = some [] := by decide
+
+/-! ### repaired: a string literal enclosed in braces (6.7.9p14-15) -/
+
+def tChar : Ty := .scalar 1 .int
+def tBool : Ty := .scalar 1 .bool
+/-- `"abc"` -/
+def sAbc : ITok := .str 7 [97, 98, 99, 0] 1
+/-- `L"ab"` -/
+def sWab : ITok := .str 8 [97, 0, 0, 0, 98, 0, 0, 0, 0, 0, 0, 0] 4
+
+/-- `char s[6] = {"abc"};`, `char s[6] = {"abc",};` and `char t[] = {"abc"};` (4 elements): parser = specification = the
+    characters; an `int` array with a narrow literal and a `_Bool` array keep the list meaning (the address in element 0) -/
+theorem C05_repaired_braced_string :
+    objectOf (parseInit (.array tChar 6) [.lbrace, sAbc, .rbrace]) (.array tChar 6) = some ([97, 98, 99, 0, 0, 0].map Cell.byte) ∧
+    objectOf (InitSpec.init (.array tChar 6) [.lbrace, sAbc, .rbrace]) (.array tChar 6) = some ([97, 98, 99, 0, 0, 0].map Cell.byte) ∧
+    objectOf (parseInit (.array tChar 6) [.lbrace, sAbc, .comma, .rbrace]) (.array tChar 6)
+      = some ([97, 98, 99, 0, 0, 0].map Cell.byte) ∧
+    objectOf (InitSpec.init (.array tChar 6) [.lbrace, sAbc, .comma, .rbrace]) (.array tChar 6)
+      = some ([97, 98, 99, 0, 0, 0].map Cell.byte) ∧
+    (parseInit (.inc tChar) [.lbrace, sAbc, .rbrace]).toOption.map (fun p => (flexLen p.1, p.2)) = some (4, []) ∧
+    (InitSpec.init (.inc tChar) [.lbrace, sAbc, .rbrace]).toOption.map (fun p => (flexLen p.1, p.2)) = some (4, []) ∧
+    objectOf (parseInit (.array tInt 2) [.lbrace, sWab, .rbrace]) (.array tInt 2) = some ([97, 0, 0, 0, 98, 0, 0, 0].map Cell.byte) ∧
+    objectOf (InitSpec.init (.array tInt 2) [.lbrace, sWab, .rbrace]) (.array tInt 2)
+      = some ([97, 0, 0, 0, 98, 0, 0, 0].map Cell.byte) ∧
+    -- element widths differ / `_Bool`: a list, the first initializer is the address of the literal
+    (parseInit (.array tInt 2) [.lbrace, sAbc, .rbrace]).toOption.map (fun p => hasExpr p.1) = some true ∧
+    bracedStr tInt [sAbc, .rbrace] = none ∧ InitSpec.bracedLit (.array tInt 2) [sAbc, .rbrace] = none ∧
+    bracedStr tBool [sAbc, .rbrace] = none ∧ InitSpec.bracedLit (.array tBool 2) [sAbc, .rbrace] = none ∧
+    (parseInit (.array tBool 2) [.lbrace, sAbc, .rbrace]).toOption.map (fun p => (autoObject p.1 (.array tBool 2)).toOption)
+      = some (some [Cell.byte 1, Cell.byte 0]) ∧
+    (InitSpec.init (.array tBool 2) [.lbrace, sAbc, .rbrace]).toOption.map (fun p => (autoObject p.1 (.array tBool 2)).toOption)
+      = some (some [Cell.byte 1, Cell.byte 0]) := by
+  decide +kernel
+
+/-- a struct member, after a designator, overriding an earlier initializer (region `over`, as for the literal without braces) -/
+def tSM : Ty := .struct [(⟨some "a", 0, none⟩, tInt), (⟨some "s", 4, none⟩, .array tChar 4)] 8 false
+
+theorem C05_repaired_braced_string_member :
+    objectOf (parseInit tSM [.lbrace, n 1, .comma, .lbrace, sAbc, .rbrace, .rbrace]) tSM
+      = some ([1, 0, 0, 0, 97, 98, 99, 0].map Cell.byte) ∧
+    objectOf (InitSpec.init tSM [.lbrace, n 1, .comma, .lbrace, sAbc, .rbrace, .rbrace]) tSM
+      = some ([1, 0, 0, 0, 97, 98, 99, 0].map Cell.byte) ∧
+    objectOf (InitSpec.init tSM [.lbrace, .dot "s", .eq, .lbrace, sAbc, .comma, .rbrace, .rbrace]) tSM
+      = some ([0, 0, 0, 0, 97, 98, 99, 0].map Cell.byte) ∧
+    objectOf (parseInit tSM [.lbrace, .dot "s", .eq, .lbrace, sAbc, .comma, .rbrace, .rbrace]) tSM
+      = some ([0, 0, 0, 0, 97, 98, 99, 0].map Cell.byte) ∧
+    InitSpec.BraceOverride tSM [.lbrace, .dot "s", .eq, .lbrace, n 5, .rbrace, .comma, .dot "s", .eq, .lbrace, sAbc, .rbrace, .rbrace]
+      = InitSpec.BraceOverride tSM [.lbrace, .dot "s", .eq, .lbrace, n 5, .rbrace, .comma, .dot "s", .eq, sAbc, .rbrace] := by
+  decide +kernel
 
 end ChibiVerif.Findings.C05
